@@ -190,7 +190,7 @@ theorem C05_component_covers_consumed {α : Type} [Arith α] (ts : List Tok) (hw
     ev.srcSpan = some ⟨offAt ts s.cur, offAt ts (p s).2.cur⟩ ∧
     ∀ (i : Nat) (t : Tok), s.cur ≤ i → i < (p s).2.cur → ts[i]? = some t →
       offAt ts s.cur ≤ t.start ∧ t.stop ≤ offAt ts (p s).2.cur :=
-  component_span_exact hw hg p hp ev hr
+  cov_component_span_exact hw hg p hp ev hr
 
 /-- **Event-level conservation, every block shape.**  `Wordy cs t` ("content token"): the token
     shows a character that is not white space (so it is no comment; for an escape `\x` the
@@ -237,7 +237,7 @@ theorem C05_step_events_cover {α : Type} [Arith α] (cs : CharSpec) (ext : Ext)
 theorem C05_metadata_entry_covers {α : Type} [Arith α] (cs : CharSpec) (ext : Ext) (b : List Tok)
     (evs : Array (Ev α)) (hw : WF b) (ev : Ev α)
     (h : (metadataEntry (α := α) ⟨b, 0, ext, cs, evs, none⟩).1 = some ev) : MetaCovers cs b ev :=
-  metadataEntry_coverFine (cs := cs) (wf_wfi hw) (⟨rfl, rfl, rfl, Nat.zero_le _⟩ : G b ext _) rfl ev h
+  metadataEntry_coverFine (cs := cs) (cov_wf_wfi hw) (⟨rfl, rfl, rfl, Nat.zero_le _⟩ : G b ext _) rfl ev h
 
 /-- **Section lines.**  When `section` returns an event (no `section-invalid` warning: nothing but
     blanks after the closing `=`), every content token of the line lies inside the span of the
@@ -246,14 +246,14 @@ theorem C05_metadata_entry_covers {α : Type} [Arith α] (cs : CharSpec) (ext : 
 theorem C05_section_covers {α : Type} [Arith α] (cs : CharSpec) (ext : Ext) (b : List Tok)
     (evs : Array (Ev α)) (hw : WF b) (ev : Ev α)
     (h : (sectionP (α := α) ⟨b, 0, ext, cs, evs, none⟩).1 = some ev) : EvCovers cs b ev :=
-  sectionP_coverAll (cs := cs) (wf_wfi hw) (⟨rfl, rfl, rfl, Nat.zero_le _⟩ : G b ext _) rfl rfl ev h
+  sectionP_coverAll (cs := cs) (cov_wf_wfi hw) (⟨rfl, rfl, rfl, Nat.zero_le _⟩ : G b ext _) rfl rfl ev h
 
 /-- … and what earlier blocks put into the queue stays covered -/
 theorem C05_block_keeps_covered {α : Type} [Arith α] (cs : CharSpec) (ext : Ext) (oldStyle : Bool)
     (b : List Tok) (evs : Array (Ev α)) (panic : Option String) (t : Tok) (h : CoveredBy evs t)
     (hw : WF b) (hp : panic = none) : CoveredBy (runBlock cs ext oldStyle b evs panic).1 t := by
   subst hp
-  exact (runBlock_coverAll (K := fun u => u = t) cs ext oldStyle b evs (wf_wfi hw) Boundary.first
+  exact (runBlock_coverAll (K := fun u => u = t) cs ext oldStyle b evs (cov_wf_wfi hw) Boundary.first
     (fun u hu => by rw [hu]; exact h)).1 t rfl
 
 /-- **The token stream of a whole input.**  `bodyToks cs input` is what `PullParser` splits into
@@ -272,7 +272,7 @@ theorem C05_alnum_tokens_are_content (cs : CharSpec) (hs : AlnumSpec cs) (off : 
     (t : Tok) (ht : t ∈ lexFrom cs off s) (hlc : t.kind ≠ .lineComment) (hbc : t.kind ≠ .blockComment)
     (c : Char) (hc : c ∈ t.text) (ha : cs.alnum c = true) : Wordy cs t := by
   obtain ⟨nx, hsp⟩ := wellSpelled_mem (lexFrom_wellSpelled cs off s) ht
-  exact wordy_of_alnum hs hsp hlc hbc hc ha
+  exact cov_wordy_of_alnum hs hsp hlc hbc hc ha
 
 /-- Front matter: the parts of the input that neither the front-matter event nor the body carries
     — blank lines and the opening fence before the YAML text, the closing fence after it — consist
@@ -282,7 +282,7 @@ theorem C05_frontmatter_skips_fences_only (cs : CharSpec) (s : List Char) (fm : 
     ∃ pre mid, s = pre ++ fm.yamlText ++ mid ++ fm.cookText ∧
       fm.yamlOffset = utf8Len pre ∧ fm.cookOffset = utf8Len (pre ++ fm.yamlText ++ mid) ∧
       (∀ c ∈ pre, cs.uws c = true ∨ c = '-') ∧ (∀ c ∈ mid, cs.uws c = true ∨ c = '-') :=
-  frontmatter_layout cs s fm h
+  cov_frontmatter_layout cs s fm h
 
 /-- **C05, the clause of DESIGN.md §6, for every input.**  Let the character tables satisfy
     `AlnumSpec` (a letter or digit is not white space and none of `> = \ LF CR -`; true of the
@@ -303,7 +303,7 @@ theorem C05_conservation {α : Type} [Arith α] (cs : CharSpec) (hs : AlnumSpec 
     (input a z : List Char) (c : Char) (hin : input = a ++ c :: z) (ha : cs.alnum c = true) :
     InComment cs input (utf8Len a) (utf8Len a + c.utf8Size) ∨
     BytesCovered (pullEvents (α := α) cs ext input).1 (utf8Len a) (utf8Len a + c.utf8Size) :=
-  input_conservation cs hs ext input a z c hin ha
+  cov_input_conservation cs hs ext input a z c hin ha
 
 /-! non-vacuity.  The hypothesis on the character tables is satisfiable; words and numbers are
     content tokens, whitespace tokens and comments are not. -/
